@@ -50,7 +50,16 @@ var payloadKinds = []string{"plain", "id", "data", "id+data", "empty-id", "data-
 var formatKinds = []string{"unset", "json", "text", "invalid"}
 var sourceKinds = []string{"set", "nil", "empty"}
 var schemaKinds = []string{"nil", "set", "empty"}
-var signerKinds = []string{"nil", "ok", "failing", "failing+cancels-ctx"}
+var signerKinds = []string{"nil", "ok", "failing", "failing+cancels-ctx", "ok-odd-characters"}
+
+// createdKinds: the event's creation time (the zero time and a time in a zone with an offset are times too);
+// presetKinds: what the event carries under the configured format before the node runs (an earlier
+// cloudevents node of the pipeline, or stale bytes): the node stores ITS document there
+var createdKinds = []string{"utc-nanos", "zero", "zone+05:30"}
+var presetKinds = []string{"none", "stale"}
+
+// oddSig prefixes the result of the "ok-odd-characters" signer: valid UTF-8 that JSON must escape.
+const oddSig = "\x01\v\a\x00\x7f\"\\<>&\u2028é-"
 var predKinds = []string{"nil", "true", "false", "error"}
 
 var errSign = errors.New("signer fails")
@@ -59,11 +68,12 @@ var errPred = errors.New("predicate fails")
 type caseSpec struct {
 	payload, format, source, schema, signer, pred int
 	listed                                        bool
+	created, preset                               int
 }
 
 func (c caseSpec) String() string {
-	return fmt.Sprintf("payload=%s format=%s source=%s schema=%s signer=%s listed=%v predicate=%s",
-		payloadKinds[c.payload], formatKinds[c.format], sourceKinds[c.source], schemaKinds[c.schema], signerKinds[c.signer], c.listed, predKinds[c.pred])
+	return fmt.Sprintf("payload=%s format=%s source=%s schema=%s signer=%s listed=%v predicate=%s created=%s preset=%s",
+		payloadKinds[c.payload], formatKinds[c.format], sourceKinds[c.source], schemaKinds[c.schema], signerKinds[c.signer], c.listed, predKinds[c.pred], createdKinds[c.created], presetKinds[c.preset])
 }
 
 func allCases() []caseSpec {
@@ -75,7 +85,11 @@ func allCases() []caseSpec {
 					for sg := range signerKinds {
 						for _, listed := range []bool{true, false} {
 							for pr := range predKinds {
-								out = append(out, caseSpec{p, f, s, sc, sg, pr, listed})
+								for cr := range createdKinds {
+									for ps := range presetKinds {
+										out = append(out, caseSpec{p, f, s, sc, sg, pr, listed, cr, ps})
+									}
+								}
 							}
 						}
 					}
@@ -167,6 +181,11 @@ func runCaseInner(c caseSpec, note *string) string {
 			signerInputs = append(signerInputs, append([]byte(nil), b...))
 			return fmt.Sprintf("sig-of-%d-bytes-%x", len(b), fnv(b)), nil
 		}
+	case "ok-odd-characters":
+		f.Signer = func(_ context.Context, b []byte) (string, error) {
+			signerInputs = append(signerInputs, append([]byte(nil), b...))
+			return fmt.Sprintf("%ssig-of-%d-bytes-%x", oddSig, len(b), fnv(b)), nil
+		}
 	case "failing":
 		f.Signer = func(_ context.Context, b []byte) (string, error) {
 			signerInputs = append(signerInputs, append([]byte(nil), b...))
@@ -196,7 +215,16 @@ func runCaseInner(c caseSpec, note *string) string {
 		f.Predicate = func(context.Context, interface{}) (bool, error) { predCalls++; return false, errPred }
 	}
 	created := time.Date(2023, 5, 6, 7, 8, 9, 987654321, time.UTC)
+	switch createdKinds[c.created] {
+	case "zero":
+		created = time.Time{}
+	case "zone+05:30":
+		created = time.Date(2023, 5, 6, 7, 8, 9, 120000000, time.FixedZone("IST", 5*3600+1800))
+	}
 	e := &el.Event{Type: typ, CreatedAt: created, Formatted: map[string][]byte{}, Payload: payload}
+	if presetKinds[c.preset] == "stale" {
+		e.Formatted[wantKey] = []byte(`{"id":"stale","source":"https://elsewhere/","specversion":"1.0","type":"other","data":"left by an earlier node"}` + "\n")
+	}
 	pctx, cancel := context.WithCancel(context.Background())
 	cancelProcess = cancel
 	out, err := f.Process(pctx, e)
@@ -332,7 +360,11 @@ func runCaseInner(c caseSpec, note *string) string {
 	if len(signerInputs) != 1 || !bytes.Equal(signerInputs[0], raw) {
 		return "serialized does not decode to exactly the bytes the signer was given"
 	}
-	if str("serialized_hmac") != fmt.Sprintf("sig-of-%d-bytes-%x", len(raw), fnv(raw)) {
+	wantSig := fmt.Sprintf("sig-of-%d-bytes-%x", len(raw), fnv(raw))
+	if signerKinds[c.signer] == "ok-odd-characters" {
+		wantSig = oddSig + wantSig
+	}
+	if str("serialized_hmac") != wantSig {
 		return "serialized_hmac is not the signer's result for the serialized bytes"
 	}
 	var unsigned map[string]interface{}
